@@ -407,6 +407,7 @@ func (t *Translator) call(st *State, in *ssa.Call) {
 		t.curCall = t.callOrdinal(in)
 	}
 	t.call1(st, in)
+	t.stampVersions(st)
 	t.curCall = 0
 	// ghost assertions attached to this call site
 	if t.parent == nil && t.spec != nil && len(t.spec.Asserts) > 0 {
